@@ -584,6 +584,8 @@ type Event struct {
 	To   int             // timeout event
 	Send []fixscan.Field // application message body (type D)
 	Name string
+	// SendGroup: the application message carries a repeating group with a nested group
+	SendGroup bool
 }
 
 func (e Event) String() string { return e.Name }
@@ -665,6 +667,21 @@ func (w *World) Apply(e *Event) (obs []Obs) {
 		m.Header.SetString(35, "D")
 		for _, f := range e.Send {
 			m.Body.SetString(quickfix.Tag(f.Tag), f.Value)
+		}
+		if e.SendGroup {
+			sub := func() *quickfix.RepeatingGroup {
+				return quickfix.NewRepeatingGroup(802, quickfix.GroupTemplate{quickfix.GroupElement(523), quickfix.GroupElement(803)})
+			}
+			g := quickfix.NewRepeatingGroup(453, quickfix.GroupTemplate{quickfix.GroupElement(448), quickfix.GroupElement(447), quickfix.GroupElement(452), sub()})
+			e1 := g.Add()
+			e1.SetString(448, "P1").SetString(447, "D").SetString(452, "1")
+			sg := sub()
+			sg.Add().SetString(523, "S1").SetString(803, "1")
+			e1.SetGroup(sg)
+			g.Add().SetString(448, "P2").SetString(447, "D").SetString(452, "2")
+			m.Body.SetString(11, "ID")
+			m.Body.SetGroup(g)
+			m.Body.SetString(55, "IBM").SetString(54, "1").SetString(60, "20240101-00:00:00").SetString(40, "1")
 		}
 		if err := w.VS.QueueForSend(m); err != nil {
 			w.log = append(w.log, Obs{K: "senderr", Txt: err.Error()})
